@@ -86,6 +86,11 @@ inductive CEv
   | free (c : Nat) (fn : String)           -- `PyMem_Free(c)`, `FREE(c)`
   | refNonPos (x : Nat)                    -- path condition: `x.ref <= 0` (nobody refers to `x`)
   | setField (x : Nat) (field : String) (y : Nat)   -- `x.next = y`: a pointer field of the node `x`
+  -- the counter `_ref` of a CUDD handle `h` (`u`, `self`): the library references the handle owns
+  | fieldAdd (h : String) (k : Int)        -- `h._ref += k` / `h._ref -= k` (then `k` is negative)
+  | fieldSet (h : String) (k : Int)        -- `h._ref = k`
+  | fieldTest (h : String) (rel : String) (k : Int) (holds : Bool)   -- path condition `h._ref <rel> k` (or its negation)
+  | handleNode (x : Nat) (h : String)      -- the node `x` is `h.node` (emitted in `init`/`__dealloc__`/`incref`/`decref` only)
 deriving Repr, DecidableEq, Inhabited
 
 structure CPath where
